@@ -9,6 +9,7 @@ func init() {
 			{Name: "WIRE-BAMHDR", What: "binary header: EncodeBinary's token sequence = DecodeBinary's (magic, l_text, text, n_ref, {l_name, name, l_ref}*)", Floor: 6,
 				Run: ruleWirePair("WIRE-BAMHDR", "sam.(*Header).EncodeBinary#DecodeBinary", "sam", "(*Header).EncodeBinary", "sam", "(*Header).DecodeBinary", nil)},
 			{Name: "TAB-AUX", What: "aux type widths agree between bam.jumps, sam.NewAux literals, sam.Aux.Value slices and the specification", Floor: 20, Run: ruleTabAux},
+			{Name: "ACCEPT-AGREE", What: "the aux types and array element types the BAM reader lets through = those sam.Aux.Value decodes = those the format defines (shared with C11)", Floor: 2, Run: ruleAcceptAgree},
 			{Name: "BIT-CIGAR", What: "CigarOp.Type/Len unpack length<<4|type (bit domain, all values)", Floor: 2, Run: ruleBitCigar},
 			{Name: "TAB-NIBBLE", What: "base code tables are mutually inverse and equal \"=ACMGRSVTWYHKDBN\"; contract/Expand use the high nibble for even positions", Floor: 18, Run: ruleNibble},
 			{Name: "PATH-OMIT", What: "Omit modes: exactly the omitted parts are not decoded", Floor: 1, Run: rulePathOmit},
